@@ -5,6 +5,8 @@ import (
 	"context"
 	"fmt"
 	"os"
+	"regexp"
+	"sort"
 	"strconv"
 	"strings"
 	"sync"
@@ -12,6 +14,7 @@ import (
 	"time"
 	"unicode/utf8"
 
+	"github.com/robfig/soy/soyhtml"
 	"github.com/robfig/soy/soyjs"
 
 	"verif/core"
@@ -192,6 +195,53 @@ func runGeneratedT(pool *jsrun.Pool, chainText string, escapeOn bool, strs []str
 
 func cancelsDoc(name string) bool { return name != "truncate" }
 
+var reNotFound = regexp.MustCompile(`[Pp]rint directive "([^"]*)" (?:not found|does not exist)`)
+var reNotFunction = regexp.MustCompile(`(\S+) is not a function|(\S+) is not defined|Cannot read propert[a-z]* of undefined`)
+
+// missingCounterpart recognises "the directive has no JavaScript counterpart":
+// soyjs.Write does not know a directive that the Go renderer implements, or
+// the generated call names a function that does not exist at run time.  It
+// returns the directive's name, or "".
+func missingCounterpart(errText string, chain []Dir) string {
+	implemented := func(name string) bool {
+		d, ok := soyhtml.PrintDirectives[name]
+		return ok && d.Apply != nil
+	}
+	if m := reNotFound.FindStringSubmatch(errText); m != nil {
+		for _, d := range chain {
+			if d.Name == m[1] && implemented(d.Name) {
+				return d.Name
+			}
+		}
+		// the table lost the entry under this name: the directive of the chain that soyjs does not list
+		for _, d := range chain {
+			if _, ok := soyjs.PrintDirectives[d.Name]; !ok && implemented(d.Name) {
+				return d.Name
+			}
+		}
+		return ""
+	}
+	if reNotFunction.MatchString(errText) {
+		for _, d := range chain {
+			if js := JSName(d.Name); js != "" && strings.Contains(errText, js) && implemented(d.Name) {
+				return d.Name
+			}
+		}
+		if len(chain) == 1 && JSName(chain[0].Name) != "" && implemented(chain[0].Name) {
+			return chain[0].Name
+		}
+	}
+	return ""
+}
+
+func noCounterpart(ctx *core.Ctx, name, chainText, why string) {
+	sig := core.Sig{Family: "js", Feature: "directive=" + name + ",no-js-counterpart"}
+	if reporter.First(sig) {
+		ctx.Violation(sig, fmt.Sprintf("|%s is implemented by the Go renderer (soyhtml.PrintDirectives) but has no JavaScript counterpart for {$x%s}: %s", name, chainText, why),
+			map[string]interface{}{"kind": "c16-js-counterpart", "directive": name, "template": JSTemplate(chainText, false), "why": why})
+	}
+}
+
 // JSCounterparts runs the generated JavaScript and the library functions
 // under the contracts.
 func JSCounterparts(ctx *core.Ctx, e *Export) {
@@ -220,6 +270,32 @@ func JSCounterparts(ctx *core.Ctx, e *Export) {
 			}
 		}
 	}
+	// every directive the Go renderer implements must have a JavaScript counterpart:
+	// those the grid does not know (registered by an embedder) are translated and
+	// called once per string, only their presence is judged
+	known := map[string]bool{}
+	for _, ch := range chains {
+		known[ch[0].Name] = true
+	}
+	var goNames []string
+	for name, d := range soyhtml.PrintDirectives {
+		if d.Apply != nil { // bidiSpanWrap / bidiUnicodeWrap are declared unimplemented
+			goNames = append(goNames, name)
+		}
+	}
+	sort.Strings(goNames)
+	for _, name := range goNames {
+		if !known[name] {
+			d := Dir{Name: name, Args: []map[string]interface{}{}}
+			if al := soyhtml.PrintDirectives[name].ValidArgLengths; len(al) > 0 {
+				for i := 0; i < al[0]; i++ {
+					d.Args = append(d.Args, intArg(1))
+				}
+			}
+			chains = append(chains, []Dir{d})
+		}
+	}
+	ctx.Extra["go_directives_required_to_have_js_counterpart"] = goNames
 	// ---- generated code, autoescape="false" and on
 	type res struct {
 		off, on []genResult
@@ -249,6 +325,10 @@ func JSCounterparts(ctx *core.Ctx, e *Export) {
 				}
 			}
 			if err != nil {
+				if name := missingCounterpart(err.Error(), chains[ci]); name != "" {
+					noCounterpart(ctx, name, ct, "soyjs cannot translate the print: "+err.Error())
+					return
+				}
 				toolMu.Lock()
 				toolErrs++
 				if toolErrs <= 3 {
@@ -297,6 +377,10 @@ func JSCounterparts(ctx *core.Ctx, e *Export) {
 		fault := ""
 		switch {
 		case !r.ok:
+			if name := missingCounterpart(r.err, chain); name != "" {
+				noCounterpart(ctx, name, ChainText(chain), "the generated JavaScript "+firstLine(js)+" fails: "+r.err)
+				return
+			}
 			fault = "error"
 		case !r.wf:
 			fault = "invalid-utf16"
